@@ -621,6 +621,25 @@ def extras(only=None):
         except Exception as ex:  # noqa: BLE001
             rec['oracle'] = 'callable objects with a false truth value as components: raised %s: %s' % (type(ex).__name__, ex)
         out.append(rec)
+    # integer / bool weights with fractional component values: the weights' type must not leak into the component values
+    for k, (ws, vals) in enumerate([([2, -1, 3], [0.5, 1.25, -0.75]), ([True, True, False], [0.3, 0.6, 9.9]), ([1], [0.9]), ([0, 7], [3.7, 0.1])]):
+        name = 'int-weights-%d' % k
+        if only and only != name:
+            continue
+
+        def constf(v):
+            return lambda x: v
+        want = 0
+        for w, v in zip(ws, vals):
+            want += w * v
+        rec = {'name': name, 'okey': 'int-weights', 'input': {'weights': [repr(w) for w in ws], 'component values': vals}, 'oracle': None}
+        try:
+            got = WeightedFunction(functions=[constf(v) for v in vals], weights=list(ws)).pointer(x)
+            if got != want:
+                rec['oracle'] = 'integer / bool weights %r with component values %r: value %r, the sum of weight times component value is %r' % (ws, vals, got, want)
+        except Exception as ex:  # noqa: BLE001
+            rec['oracle'] = 'integer / bool weights %r raised %s: %s' % (ws, type(ex).__name__, ex)
+        out.append(rec)
     # components that are decorated callables (functools.wraps): the callable handed over is the component, not what it wraps
     import functools
     for k, (sign, shift) in enumerate([(-1.0, 0.0), (1.0, 2.5), (-2.0, -1.0)]):
